@@ -34,7 +34,7 @@ ASSUMPTIONS = E1_ASSUMPTIONS + [
     "headers <- int, exclude_filters <- scalar string/int); a whitespace-separated string for rst.headers is documented as valid",
     "a wrong-typed value is only placed where no higher-priority source sets the same key (otherwise it is not 'in effect')",
     "the logging section is not compared"]
-PROBES = ["conflict_cli_vs_sfile", "conflict_sfile_vs_user", "conflict_cli_vs_user", "three_way_conflict", "only_default",
+PROBES = ["empty_string_on_command_line", "conflict_cli_vs_sfile", "conflict_sfile_vs_user", "conflict_cli_vs_user", "three_way_conflict", "only_default",
           "exclude_union_multi_source", "outdir_rel_cwd", "outdir_rel_config_sfile", "outdir_rel_config_user",
           "outdir_rel_config_cli", "user_in_home", "user_in_xdg", "user_in_cminxdir", "sfile_relative", "wrong_type",
           "fault_read_error", "fault_torn", "torn_still_mapping", "pages_land_checked"]
@@ -94,11 +94,12 @@ def strategy(cfg):
                     else draw(st.sampled_from([["!", "@"], "& _"]))
         for s in SRC:
             if maybe():
-                src[s]["rst.prefix"] = "pfx_" + s
+                src[s]["rst.prefix"] = "pfx_" + s if not (s == "cli" and draw(st.integers(0, 5)) == 0) else ""
             if maybe():
                 src[s]["input.exclude_filters"] = [f"pat_{s}_{j}" for j in range(draw(st.integers(1, 3)))]
             if maybe():
-                src[s]["output.directory"] = draw(st.sampled_from(["outdir_" + s, "sub/out_" + s, "{BASE}/abs_out_" + s]))
+                src[s]["output.directory"] = draw(st.sampled_from(["outdir_" + s, "sub/out_" + s, "{BASE}/abs_out_" + s]
+                                                                  + ([""] if s == "cli" else [])))
         for s in ("sfile", "user"):
             if maybe():
                 src[s]["output.relative_to_config"] = draw(st.booleans())
@@ -363,6 +364,8 @@ def _same(a, b, base):
 
 def _probes(ctx, spec):
     src = spec["sources"]
+    if any(v == "" for v in src["cli"].values()):
+        ctx.probes["empty_string_on_command_line"] += 1
     keys = set().union(*[set(src[s]) for s in SRC])
     if not keys:
         ctx.probes["only_default"] += 1
